@@ -23,10 +23,21 @@ def surface_fields(fs):
     return " ".join(out)
 
 
-def rust_fields(fs):
+def rust_fields(fs, comma=False):
     out = []
     for i, f in enumerate(fs):
         attrs = ""
+        if comma and len(f["flags"]) > 1:
+            # the same conflict written as ONE attribute with a comma-separated list
+            items = []
+            if "s" in f["flags"]:
+                items.append("skip")
+            if "c" in f["flags"]:
+                items.append("compact")
+            if "a" in f["flags"]:
+                items.append('encoded_as = "<u32 as parity_scale_codec::HasCompact>::Type"')
+            out.append("#[codec(%s)] f%d: u32" % (", ".join(items), i))
+            continue
         if "s" in f["flags"]:
             attrs += "#[codec(skip)] "
         if "c" in f["flags"]:
@@ -37,14 +48,14 @@ def rust_fields(fs):
     return ", ".join(out)
 
 
-def enum_prog(name, variants, repr="u16"):
+def enum_prog(name, variants, repr="u16", comma=False):
     """variants: list of dict(skip, idx, disc, fields)"""
     body = ""
     for j, v in enumerate(variants):
         attrs = ("#[codec(skip)] " if v["skip"] else "") + ("#[codec(index = %d)] " % v["idx"] if v["idx"] is not None else "")
         item = "V%d" % j
         if v["fields"]:
-            item += " { %s }" % rust_fields(v["fields"])
+            item += " { %s }" % rust_fields(v["fields"], comma)
         if v["disc"] is not None:
             item += " = %d" % v["disc"]
         body += "\t%s%s,\n" % (attrs, item)
@@ -147,6 +158,15 @@ def cmd_compile(gp, seed, n, outdir):
         vs = [{"skip": False, "idx": None, "disc": None, "fields": fs}, {"skip": False, "idx": None, "disc": None, "fields": []}]
         s2, f2 = enum_prog("NAME", vs)
         add(s2, "accepts", f2, "conflicting field attributes" if len(flags) > 1 else None)
+    for flags in ["sc", "sa", "ca", "sca", "cs"]:
+        fs = [{"flags": ""}, {"flags": flags}]
+        src = "#[derive(parity_scale_codec::Encode, parity_scale_codec::Decode)]\npub struct NAME { %s }\n" % rust_fields(fs, comma=True)
+        add(src, "accepts", "struct " + surface_fields(fs), "conflicting field attributes (one comma-separated list)")
+        src = "#[derive(parity_scale_codec::Encode, parity_scale_codec::Decode)]\npub struct NAME(%s);\n" % rust_fields([{"flags": flags}], comma=True).replace("f0: ", "")
+        add(src, "accepts", "struct " + surface_fields([{"flags": flags}]), "conflicting field attributes (one comma-separated list)")
+        vs = [{"skip": False, "idx": None, "disc": None, "fields": []}, {"skip": False, "idx": 7, "disc": None, "fields": fs}]
+        s2, f2 = enum_prog("NAME", vs, comma=True)
+        add(s2, "accepts", f2, "conflicting field attributes (one comma-separated list)")
     add("#[derive(parity_scale_codec::Encode, parity_scale_codec::Decode)]\npub union NAME { a: u32, b: u8 }\n", "accepts", "union", "union")
     add("#[derive(parity_scale_codec::Encode, parity_scale_codec::Decode)]\npub struct NAME { a: u32, b: u8 }\n", "accepts", "struct 2 p u32 p u32", None)
     # more than 256 encodable variants, and exactly 256
